@@ -10,7 +10,7 @@ EXPLANATION = ("Static MIR census over the workspace (mla, mlar, mla-bindings-c)
                "(R13.4) an `impl Read::read` returning a count produced by BrotliDecompressStream excludes 0 before returning Ok(count) mid-stream. "
                "(R13.5) every block decompressor of the compression reader is built on an inner reader that sync_inner_with_uncompressed_pos has just positioned absolutely "
                "(never where the previous decompressor happened to stop); (R13.6) a stream that delivered exactly UNCOMPRESSED_DATA_SIZE bytes is still handed to the decoder; (R13.7) = R10.5; "
-               "(R13.9) the count returned by a raw read is only ever compared with 0 (a short count is not the end of the source); (R13.10) an error of the destination that a writer keeps for later (Option<io::Error> stored from an `impl Write` function) is stored only on the not-Interrupted edge of a comparison of its kind(); (R13.8) on the write path (everything reachable from the writer layers' `impl Write`) no io::Error is rebuilt from a received io::Error without taking over its kind(): `Interrupted` from the destination stays retryable for write_all / io::copy / brotli. Equality of the resulting archives is runtime and not decided.")
+               "(R13.9) the count returned by a raw read is only ever compared with 0 (a short count is not the end of the source); (R13.11) no `impl Read::read` builds an error on the edge of a comparison of its own loop-round counter with a constant; (R13.10) an error of the destination that a writer keeps for later (Option<io::Error> stored from an `impl Write` function) is stored only on the not-Interrupted edge of a comparison of its kind(); (R13.8) on the write path (everything reachable from the writer layers' `impl Write`) no io::Error is rebuilt from a received io::Error without taking over its kind(): `Interrupted` from the destination stays retryable for write_all / io::copy / brotli. Equality of the resulting archives is runtime and not decided.")
 TRUSTED = ['brotli: BrotliResult::NeedsMoreOutput is returned only when the output window is full', 'rustc MIR', 'std::io::Write::write_all / io::copy / Read::read_exact / read_to_end loop over partial transfers and retry Interrupted', 'byteorder, bincode use the complete forms']
 ASSUMPTIONS = ['a sink or source respects the Read/Write contracts (count <= buffer length)']
 
@@ -418,6 +418,7 @@ def run(prog, rep, tier):
     # ---------------- R13.8 an error of the destination keeps its kind on the way up (write_all / io::copy / brotli retry only `Interrupted`)
     r13_8(prog, rep)
     r13_10(prog, rep)
+    r13_11(prog, rep)
 
 
 def chunk_loads_complete(prog, rep, RULE='R13.3'):
@@ -523,6 +524,61 @@ def r13_10(prog, rep, RULE='R13.10'):
                        'an error of the destination is kept for later (%s) without excluding ErrorKind::Interrupted: the interrupted write is retried and succeeds, but the kept '
                        'error fails the archive when the block is closed -- a destination that reports an interruption no longer yields the same archive' % how, body.loc(bb))
     rep.floor(RULE, n, 1, 'stores of a kept destination error in the writer layers')
+
+
+def r13_11(prog, rep, RULE='R13.11'):
+    """How many rounds a read loop needs before it has something to return depends on how the source splits its reads. So no `impl Read::read` of the
+    library refuses (builds an Err) because a counter of its own loop rounds -- a local stepped by a constant in the loop -- passed a bound: the same
+    bytes delivered one at a time would fail where a slice succeeds."""
+    mla = prog.crates['mla']
+    n = 0
+    nb = 0
+    for body in mla.bodies:
+        if body.kind == 'Closure' or body.impl_trait != 'std::io::Read' or body.name != 'read':
+            continue
+        nb += 1
+        loops = body.loop_blocks()
+        counters = set()
+        for bl in body.blocks:
+            if bl.idx not in loops or bl.cleanup:
+                continue
+            for st in bl.stmts:
+                if st.kind == 'assign' and st.rv.r == 'binop' and st.rv.j.get('op', '').startswith('Add') and len(st.rv.ops) == 2 and st.rv.ops[1].kind == 'const' and \
+                        st.rv.ops[0].place is not None and not st.rv.ops[0].place[1]:
+                    src = st.rv.ops[0].place[0]
+                    # the sum flows back into the same variable: x = x + k
+                    tgt = st.place[0]
+                    fl = forward_locals(body, [tgt], through_calls=False)
+                    if src in fl and src > body.arg_count:
+                        counters.add(src)
+        if not counters:
+            continue
+        errs = [bl.idx for bl in body.blocks if not bl.cleanup for st in bl.stmts
+                if st.kind == 'assign' and st.place == (0, ()) and st.rv.r == 'aggregate' and st.rv.j.get('variant') == 'Err']
+        for bl in body.blocks:
+            si = switch_info(prog, body, bl.idx)
+            if not si or si['kind'] != 'bool':
+                continue
+            e = expr_of(body, si['cond'])
+            if e[0] != 'binop' or e[1] not in ('Gt', 'Ge', 'Lt', 'Le', 'Eq', 'Ne'):
+                continue
+            sides = [e[2], e[3]]
+            if not any(x[0] == 'const' for x in sides):
+                continue
+            cl = [x[1][0] for x in sides if x[0] == 'place' and not x[1][1] and x[1][0] in counters]
+            if not cl:
+                continue
+            for tgt in (si['true'], si['false']):
+                hit = [r for r in errs if body.edge_dominates((bl.idx, tgt), r)]
+                if hit:
+                    n += 1
+                    rep.fn(body)
+                    rep.ob(RULE, False, RULE + '|%s|error-on-round-count#%d' % (body.nkey, n - 1),
+                           'read fails when its own loop counter `%s` passes a constant: the number of rounds depends on how many bytes each inner read delivers, so the '
+                           'same data read from a source that returns a few bytes at a time is refused' % body.lname(cl[0]), body.loc(hit[0]))
+    rep.floor(RULE + '.readers', nb, 6, '`impl Read::read` bodies of mla examined')
+    if n == 0:
+        rep.ob(RULE, True, RULE + '|mla|no-error-on-round-count', 'no reader refuses on the number of rounds of its own loop', '-')
 
 
 IOERR = ('std::io::Error', '&std::io::Error', '&mut std::io::Error')
